@@ -370,15 +370,19 @@ EXTRA_RULE = {
 
 # (rounds 20 and later of seeded changes)
 EXTRA_RULE_LATE = {
-    "C03": " The second marshal of a document happens under another PrePath half the time and is validated against that one.",
+    "C03": " The second marshal of a document happens under another PrePath half the time and is validated against that one. The caller's links may hold a self entry; one URL in four carries include paths.",
     "C07": " Members of and/or lists in filter parameters are null now and then; fields lists with as many names as the type has fields.",
     "C08": " Fields lists with as many names as the type has fields, one of them id (with or without one more name that is not a field).",
     "C09": " The empty byte string comes allocated and as a nil slice.",
-    "C11": " One document in four carries top-level links of its own (paths, absolute, empty, with meta).",
+    "C11": " One document in four carries top-level links of its own (paths, absolute, empty, with meta). Prefixes ending in two slashes; the to-many lists handed out by Get are permuted in place before the last marshal.",
     "C12": " One marshal-softcol operation in six has 17 to 129 members.",
     "C13": " A relationship member may be null; one payload in eight is preceded by white space or by text that is not white space.",
     "C17": " Equality pairs include a to-many list and its prefix in the same array, handed over as they are.",
-    "C19": " At is also read far outside the range (1<<32, 1<<32+1, -(1<<32), 1<<62+1, the ends of int).",
+    "C19": " At is also read far outside the range (1<<32, 1<<32+1, -(1<<32), 1<<62+1, the ends of int). One collection in four takes its type from a wrapped struct as it comes; structs of that Go type are added later.",
+    "C01": " In member mode the member in front carries, for a same-named attribute of another kind, the value written with the same JSON literal.",
+    "C06": " Two payloads in three for a type of more than 12 fields carry plain, certainly acceptable literals for all but two attributes.",
+    "C15": " One case in three rebuilds the schema type by type (lookups and Check on the way) and adds the relationships afterwards; attributes may bear relationship names.",
+    "C18": " One source in four was copied once before, with nil byte strings and lists.",
     "C20": " The built type must be Type.Equal to the wrapper's type and to the type of Type.New(); a copy must be EqualStrict to its source, also with empty non-nil byte strings and lists.",
 }
 
